@@ -276,6 +276,38 @@ def run_scenario(sc):
             late = engine_publishes_since(w, seq)
             if late or len(w.notifications) != nn:
                 fails.append(("dead-timer-fired", "scenario %s: cancelled Wait still produced %d publishes / %d notifications" % (json.dumps(sc), len(late), len(w.notifications) - nn)))
+        elif kind == "map-blocks":
+            # Waits and task time-outs inside the iterations of a Map, incl. MaxConcurrency blocks after the first (whose iterations are launched when the previous
+            # block has finished, i.e. later than the Map state itself was entered) and a Map event that is delivered late: every iteration's clock starts when
+            # the iteration is entered
+            n, mc, secs, late = sc["items"], sc["mc"], sc["seconds"], sc.get("late", 0)
+            if sc["inner"] == "wait":
+                inner = {"Type": "Wait", "Seconds": secs, "End": True}
+            else:
+                inner = {"Type": "Task", "Resource": W.fn_arn("f"), "TimeoutSeconds": secs, "End": True}
+                w.add_worker("f", lambda i, p, props: [(secs - 1, p)])          # every reply comes one second before that iteration's own deadline
+            mp = {"Type": "Map", "ItemsPath": "$.items", "MaxConcurrency": mc, "ItemProcessor": {"StartAt": "I", "States": {"I": inner}}, "End": True}
+            if sc.get("selector"):
+                mp["ItemSelector"] = {"v.$": "$$.Map.Item.Value"}
+            definition = {"StartAt": "P", "States": {"P": {"Type": "Pass", "Next": "M"}, "M": mp}}
+            w.create_state_machine("m", definition)
+            _, r = w.start_execution(arn_sm, {"items": list(range(n))}, name="e")
+            arn = r["executionArn"]
+            w.step(0)                                 # start event -> Pass; the Map event is queued
+            entered = w.clock.now
+            w.clock.advance_to(entered + late)        # the Map event is delivered late
+            w.run()
+            t_end, detail = terminal_time(w, arn)
+            blocks = 1 if not mc else -(-n // mc)
+            per = secs if sc["inner"] == "wait" else secs - 1
+            expect = entered + late + blocks * per
+            if t_end is None or detail["status"] != "SUCCEEDED":
+                fails.append(("map-iteration-clock:%s-%s" % (sc["inner"], "ended-" + str(detail and detail.get("error"))), "scenario %s: ended %r (an iteration's Task timed out although its reply came a second before its own deadline, or the run never ended)" % (
+                    json.dumps(sc), detail and {k: detail.get(k) for k in ("status", "error")})))
+            elif t_end < expect - 1e-3:
+                fails.append(("map-iteration-fires-early:%s" % sc["inner"], "scenario %s: %d blocks of %s s finished %.3f s after the Map was delivered, not before %.3f s possible" % (json.dumps(sc), blocks, per, t_end - entered - late, blocks * per)))
+            elif t_end > expect + 1e-3:
+                fails.append(("map-iteration-fires-late:%s" % sc["inner"], "scenario %s: finished at +%.3f, expected +%.3f" % (json.dumps(sc), t_end - entered - late, blocks * per)))
         else:
             raise HarnessError("unknown scenario kind %r" % kind)
         terms = [n["body"]["detail"]["status"] for n in w.notifications if n["body"]["detail"]["status"] != "RUNNING"]
@@ -314,9 +346,12 @@ def engine_shard(k, seed, tier, examples=40):
                                      "late": st.sampled_from([0.5, 2]), "catch_only": st.booleans()})
     cw = st.fixed_dictionaries({"kind": st.just("cancelled-wait"), "tz": tz, "seconds": st.integers(3, 9), "fail_after": st.sampled_from([0, 0.5, 2])})
 
+    mapb = st.fixed_dictionaries({"kind": st.just("map-blocks"), "tz": tz, "items": st.integers(2, 4), "mc": st.sampled_from([0, 1, 1, 2]), "seconds": st.integers(2, 5),
+                                  "inner": st.sampled_from(["wait", "task"]), "late": st.sampled_from([0, 0, 3]), "selector": st.booleans()})
+
     @hypothesis.seed(seed)
     @settings(max_examples=examples, deadline=None, database=None, suppress_health_check=list(HealthCheck), phases=[Phase.generate])
-    @given(st.one_of(wait, wait, wait_crash, task, task, xt, xt_late, cw))
+    @given(st.one_of(wait, wait, wait_crash, task, task, xt, xt_late, cw, mapb))
     def run(sc):
         try:
             fails = run_scenario(sc)
